@@ -66,17 +66,20 @@ class GroundedPrecondition:
         lifted_conditions: Precondition,
         grounded_conditions: Precondition,
         parameters_map: Dict[str, str],
+        action: Optional[Action] = None,
     ) -> None:
         """Ground the preconditions of the action.
 
         :param lifted_conditions: the lifted preconditions of the action.
         :param grounded_conditions: the grounded preconditions of the action.
         :param parameters_map: the mapping between the lifted and the grounded objects.
+        :param action: the action whose signature types the grounded literals (defaults to the grounded action).
         """
+        action = action if action is not None else self.action
         for precondition in lifted_conditions.operands:
             if isinstance(precondition, Predicate):
                 grounded_predicate = ground_predicate(
-                    precondition, parameters_map, self.domain, self.action
+                    precondition, parameters_map, self.domain, action
                 )
                 grounded_conditions.add_condition(grounded_predicate)
 
@@ -89,8 +92,10 @@ class GroundedPrecondition:
 
             elif isinstance(precondition, UniversalPrecondition):
                 self._parameter_map = parameters_map
-                self.logger.debug("There is no need to ground universal preconditions.")
-                continue
+                self.logger.debug(
+                    "Universal preconditions are grounded per object when they are evaluated."
+                )
+                grounded_conditions.operands.add(precondition)
 
             elif isinstance(precondition, Precondition):
                 grounded_condition = Precondition(precondition.binary_operator)
@@ -100,7 +105,8 @@ class GroundedPrecondition:
                 grounded_condition.inequality_preconditions = self._ground_equality_objects(
                     precondition.inequality_preconditions, parameters_map
                 )
-                self._ground(precondition, grounded_condition, parameters_map)
+                self._ground(precondition, grounded_condition, parameters_map, action)
+                grounded_conditions.operands.add(grounded_condition)
 
             else:
                 raise ValueError(
@@ -191,23 +197,20 @@ class GroundedPrecondition:
         :return: the grounded condition for a single object.
         """
         grounded_preconditions = Precondition(condition.binary_operator)
+        grounded_preconditions.equality_preconditions = self._ground_equality_objects(
+            condition.equality_preconditions, extended_parameter_map
+        )
+        grounded_preconditions.inequality_preconditions = self._ground_equality_objects(
+            condition.inequality_preconditions, extended_parameter_map
+        )
         tmp_action = Action()
-        tmp_action.signature = self.action.signature
-        tmp_action.signature[condition.quantified_parameter] = condition.quantified_type
-        for sub_condition in condition.operands:
-            if isinstance(sub_condition, Predicate):
-                grounded_predicate = ground_predicate(
-                    sub_condition, extended_parameter_map, self.domain, tmp_action
-                )
-                grounded_preconditions.add_condition(grounded_predicate)
-
-            elif isinstance(sub_condition, NumericalExpressionTree):
-                grounded_preconditions.add_condition(
-                    ground_numeric_calculation_tree(
-                        sub_condition, extended_parameter_map, self.domain
-                    )
-                )
-
+        tmp_action.signature = {
+            **self.action.signature,
+            condition.quantified_parameter: condition.quantified_type,
+        }
+        self._ground(
+            condition, grounded_preconditions, extended_parameter_map, tmp_action
+        )
         return grounded_preconditions
 
     def _validate_universal_precondition(
@@ -222,55 +225,32 @@ class GroundedPrecondition:
         :param state: the state to validate the precondition in.
         :return: whether the universal precondition is applicable in the given state.
         """
-        if not problem_objects:
-            raise ValueError(
-                "The objects of the problem should be provided for universal preconditions."
+        if problem_objects is None:
+            self.logger.warning(
+                "The objects of the problem were not provided for the universal precondition, "
+                "using the objects that appear in the state instead."
             )
+            problem_objects = state.get_state_objects()
 
         self.logger.debug(
             "Validating if the universal precondition is applicable in the state"
         )
-        is_applicable = self._validate_equality_holds(condition)
         self.logger.debug("We assume that universal preconditions are not nested.")
-        extended_parameter_map = {**self._parameter_map}
+        is_applicable = True
         for obj_name, obj in problem_objects.items():
-            if obj.type.name != condition.quantified_type.name:
+            if not obj.type.is_sub_type(condition.quantified_type):
                 continue
 
-            extended_parameter_map[condition.quantified_parameter] = obj_name
+            extended_parameter_map = {
+                **self._parameter_map,
+                condition.quantified_parameter: obj_name,
+            }
             grounded_precondition = self._ground_universal_condition(
                 condition, extended_parameter_map
             )
-            for sub_condition in grounded_precondition.operands:
-                if isinstance(sub_condition, GroundedPredicate):
-                    is_applicable = BinaryOperator[
-                        grounded_precondition.binary_operator
-                    ](
-                        is_applicable,
-                        self._validate_predicates_hold(
-                            sub_condition, is_applicable, condition, state
-                        ),
-                    )
-
-                elif isinstance(sub_condition, NumericalExpressionTree):
-                    is_applicable = BinaryOperator[
-                        grounded_precondition.binary_operator
-                    ](
-                        is_applicable,
-                        self._validate_numeric_expression_hold(
-                            sub_condition, is_applicable, condition, state
-                        ),
-                    )
-
-                elif isinstance(sub_condition, Precondition):
-                    is_applicable = BinaryOperator[
-                        grounded_precondition.binary_operator
-                    ](
-                        is_applicable,
-                        self._is_condition_applicable(
-                            sub_condition, state, problem_objects
-                        ),
-                    )
+            is_applicable = is_applicable and self._is_condition_applicable(
+                grounded_precondition, state, problem_objects
+            )
 
         return is_applicable
 
@@ -287,37 +267,43 @@ class GroundedPrecondition:
         :param problem_objects: the objects of the problem to use for universal preconditions.
         :return: whether the condition is applicable in the given state.
         """
-        is_applicable = self._validate_equality_holds(preconditions)
+        is_conjunction = preconditions.binary_operator == "and"
+        if is_conjunction:
+            is_applicable = self._validate_equality_holds(preconditions)
+        else:
+            is_applicable = any(
+                [obj1 == obj2 for obj1, obj2 in preconditions.equality_preconditions]
+            ) or any(
+                [obj1 != obj2 for obj1, obj2 in preconditions.inequality_preconditions]
+            )
+
         for condition in preconditions.operands:
             if isinstance(condition, GroundedPredicate):
-                is_applicable = BinaryOperator[preconditions.binary_operator](
-                    is_applicable,
-                    self._validate_predicates_hold(
-                        condition, is_applicable, preconditions, state
-                    ),
+                operand_holds = self._validate_predicates_hold(
+                    condition, is_conjunction, preconditions, state
                 )
 
             elif isinstance(condition, NumericalExpressionTree):
-                is_applicable = BinaryOperator[preconditions.binary_operator](
-                    is_applicable,
-                    self._validate_numeric_expression_hold(
-                        condition, is_applicable, preconditions, state
-                    ),
-                )
-
-            elif isinstance(condition, Precondition):
-                is_applicable = BinaryOperator[preconditions.binary_operator](
-                    is_applicable, self._is_condition_applicable(condition, state)
+                operand_holds = self._validate_numeric_expression_hold(
+                    condition, is_conjunction, preconditions, state
                 )
 
             elif isinstance(condition, UniversalPrecondition):
-                is_applicable = self._validate_universal_precondition(
+                operand_holds = self._validate_universal_precondition(
                     condition, state, problem_objects
                 )
-                continue
+
+            elif isinstance(condition, Precondition):
+                operand_holds = self._is_condition_applicable(
+                    condition, state, problem_objects
+                )
 
             else:
                 raise ValueError(f"Unknown precondition type: {type(condition)}")
+
+            is_applicable = BinaryOperator[preconditions.binary_operator](
+                is_applicable, operand_holds
+            )
 
         return is_applicable
 
@@ -326,6 +312,7 @@ class GroundedPrecondition:
 
         :param parameters_map: the mapping between the lifted and the grounded objects.
         """
+        self._parameter_map = parameters_map
         self._grounded_precondition.root.equality_preconditions = self._ground_equality_objects(
             self._lifted_precondition.root.equality_preconditions, parameters_map
         )
